@@ -211,7 +211,7 @@ impl Prop for C03 {
         ]
     }
     fn cases(tier: Tier) -> u64 {
-        tier.pick(20_000, 300_000)
+        tier.pick(20_000, 60_000)
     }
     fn strategy(tier: Tier) -> BoxedStrategy<Case> {
         (
